@@ -344,9 +344,10 @@ def run(chk: Check, replay=None):
         limits = [1, 3, 4, 5, 7, 8]
         cfg, extra = mc_cfg(gs, limits, 8, 2, emit=False)
     else:
-        gs = geometries(16, 3, rng, 14) + [[(0, 2)], [(0, 6), (8, 10)], [(10, 16), (6, 8), (0, 4)]]
-        limits = [1, 2, 3, 4, 5, 7, 8, 9, 12, 16]
-        cfg, extra = mc_cfg(gs, limits, 16, 2, emit=False)
+        # sized to finish: 17 geometries x 10 limits over 16 words passed 170M distinct states with the queue still growing
+        gs = geometries(12, 3, rng, 5) + [[(0, 2)], [(0, 6), (8, 10)], [(10, 12), (6, 8), (0, 4)]]
+        limits = [1, 2, 3, 4, 5, 7, 8, 9]
+        cfg, extra = mc_cfg(gs, limits, 12, 2, emit=False)
     res = tlc.run_tlc("MCcm", cfg, workers=12, extra_modules=extra, heap="12g", timeout=7200)
     chk.add_tlc(res, "FJCoreMem refinement (exhaustive)", geometries=len(gs), limits=limits, exhaustive=True)
     # ---- (2) simulated scenarios, scaled and replayed ------------------------------------------
